@@ -150,8 +150,7 @@ impl Decoder for RawMapOperationDecoder {
                         problem: Text::from(format!("{}{}", BAD_RECORD_SIZE, total_len)),
                     }));
                 }
-                let required = LEN_SIZE + total_len;
-                if src.remaining() < required {
+                if src.remaining() - LEN_SIZE < total_len {
                     return Ok(None);
                 }
                 src.advance(LEN_SIZE);
@@ -159,7 +158,7 @@ impl Decoder for RawMapOperationDecoder {
                 frame.advance(TAG_SIZE);
                 let key_len = frame.get_u64() as usize;
 
-                if key_len + LEN_SIZE + TAG_SIZE > total_len {
+                if key_len > total_len - LEN_SIZE - TAG_SIZE {
                     return Err(FrameIoError::BadFrame(InvalidFrame::InvalidHeader {
                         problem: Text::from(format!("{}{}", BAD_KEY_SIZE, key_len)),
                     }));
@@ -175,8 +174,7 @@ impl Decoder for RawMapOperationDecoder {
                         problem: Text::from(format!("{}{}", BAD_RECORD_SIZE, total_len)),
                     }));
                 }
-                let required = LEN_SIZE + total_len;
-                if src.remaining() < required {
+                if src.remaining() - LEN_SIZE < total_len {
                     return Ok(None);
                 }
                 src.advance(LEN_SIZE);
@@ -231,8 +229,9 @@ impl<K: RecognizerReadable, V: RecognizerReadable> Decoder for MapOperationDecod
                                 break Ok(None);
                             }
                             let key_len = header.get_u64() as usize;
-                            let value_len = if let Some(l) =
-                                total_len.checked_sub(key_len + LEN_SIZE + TAG_SIZE)
+                            let value_len = if let Some(l) = key_len
+                                .checked_add(LEN_SIZE + TAG_SIZE)
+                                .and_then(|n| total_len.checked_sub(n))
                             {
                                 l
                             } else {
@@ -294,15 +293,17 @@ impl<K: RecognizerReadable, V: RecognizerReadable> Decoder for MapOperationDecod
                             break Ok(None);
                         }
                         Err(e) => {
+                            // The rest of the key and the whole value must be skipped.
+                            let to_skip = remaining.saturating_add(value_size.unwrap_or(0));
                             let rem = src.remaining();
-                            if rem >= *remaining {
-                                src.advance(*remaining);
+                            if rem >= to_skip {
+                                src.advance(to_skip);
                                 *state = MapOperationDecoderState::ReadingHeader;
                                 break Err(e.into());
                             } else {
                                 src.clear();
                                 *state = MapOperationDecoderState::Discarding {
-                                    remaining: *remaining - rem,
+                                    remaining: to_skip - rem,
                                     error: Some(e),
                                 }
                             }
@@ -440,8 +441,10 @@ impl<K: StructuralWritable, V: StructuralWritable> Encoder<MapOperation<K, V>>
 #[derive(Debug, Default, Clone, Copy)]
 struct MessageEncoder<Inner>(Inner);
 
+/// The flag is set while the inner decoder is part way through a frame (the bytes at the front
+/// of the buffer are then not a header and must not be inspected).
 #[derive(Debug, Default, Clone, Copy)]
-struct MessageDecoder<Inner>(Inner);
+struct MessageDecoder<Inner>(Inner, bool);
 
 impl<K, V, Inner> Encoder<MapMessage<K, V>> for MessageEncoder<Inner>
 where
@@ -484,7 +487,12 @@ where
     type Error = FrameIoError;
 
     fn decode(&mut self, src: &mut BytesMut) -> Result<Option<Self::Item>, Self::Error> {
-        let MessageDecoder(inner) = self;
+        let MessageDecoder(inner, in_frame) = self;
+        if *in_frame {
+            let result = inner.decode(src);
+            *in_frame = matches!(result, Ok(None));
+            return Ok(result?.map(Into::into));
+        }
         if src.remaining() < TAG_SIZE + LEN_SIZE {
             src.reserve(TAG_SIZE + LEN_SIZE);
             return Ok(None);
@@ -512,8 +520,10 @@ where
                 }))
             }
             _ => {
-                let result = inner.decode(src)?;
-                Ok(result.map(Into::into))
+                let before = src.remaining();
+                let result = inner.decode(src);
+                *in_frame = matches!(result, Ok(None)) && src.remaining() < before;
+                Ok(result?.map(Into::into))
             }
         }
     }
